@@ -6,16 +6,9 @@
 open Model
 open Glue
 
-(* the dependencies: the lossy parser is the reference instance (correctly rounded),
-   cached per case line; the three formatters are the oracles recorded on the case line
-   (what lexical / serde_json actually printed), falling back to the reference instances *)
-let memo (f : 'a -> 'b) : ('a -> 'b) * (unit -> unit) =
-  let h = Hashtbl.create 64 in
-  ((fun x -> match Hashtbl.find_opt h x with
-      | Some y -> y
-      | None -> let y = f x in Hashtbl.replace h x y; y),
-   (fun () -> Hashtbl.reset h))
-let (lossy_m, lossy_reset) = memo lossy_ref
+(* the dependencies: the three float printers are the oracles recorded on the case line
+   (what lexical / serde_json actually printed), falling back to the reference instances;
+   reading a spelling is the model's own correctly rounded dbl / sgl *)
 let tab64 : (z * n list) list ref = ref []
 let tab32 : (z * n list) list ref = ref []
 let tabsj : (z * n list) list ref = ref []
@@ -23,9 +16,9 @@ let fmt64_m b = match List.assoc_opt b !tab64 with Some s -> s | None -> fmt_f64
 let fmt32_m b = match List.assoc_opt b !tab32 with Some s -> s | None -> fmt_f32_ref b
 let fmtsj_m b = match List.assoc_opt b !tabsj with Some s -> s | None -> fmt_sj_ref b
 let to_value_m d = tser fmt64_m fmt32_m d
-let from_value_m env fuel t v = de env lossy_m fuel t v
+let from_value_m env fuel t v = de env fuel t v
 let from_sj_m j = from_tsj fmtsj_m j
-let shape_m p32 v = shape_of lossy_m p32 v
+let shape_m p32 v = shape_of p32 v
 
 (* ---- Z <-> text ---- *)
 let z_of_n = function N0 -> Z0 | Npos p -> Zpos p
@@ -230,7 +223,7 @@ let rec enc_cvalue (v : value) : str =
   | VBool true -> "t"
   | VBool false -> "f"
   | VNum s ->
-    (match num_event lossy_m s with
+    (match num_event s with
      | EvU z | EvI z -> "I" ^ dec_of_z z
      | EvF b -> "F" ^ hex_of_z b)
   | VStr s -> "$" ^ tok_of_cps s
@@ -292,8 +285,7 @@ let run (toks : str list) : str * str =
           let kc = known_class d in
           let same a b = enc_sd (norm a) = enc_sd (norm b) in
           (* to_value, from_value *)
-          lossy_reset ();
-          let sv = to_value_m d in
+                    let sv = to_value_m d in
           let (ser_s, de_s, rt) =
             match sv with
             | Ok v ->
@@ -326,11 +318,14 @@ let run (toks : str list) : str * str =
           (* the float hypotheses of the theorems, on every recorded spelling *)
           let hyp =
             List.for_all (fun (b, s) ->
-                de_f64 (num_event lossy_m s) = f64_norm b
-                && nkey_eqb (num_key lossy_m false s) (key_of_f64 b)) !tab64
-            && List.for_all (fun (b, s) -> (f32_dr b || de_f32 (num_event lossy_m s) = f32_norm b)
-                                           && f32_of_f64 (f64_of_f32 b) = b) !tab32
-            && List.for_all (fun (b, s) -> num_event lossy_m s = EvF b) !tabsj in
+                de_f64 (num_event s) = f64_norm b
+                && nkey_eqb (num_key false s) (key_of_f64 b)) !tab64
+            && List.for_all (fun (b, s) ->
+                de_f32 s = f32_norm b
+                && (match List.assoc_opt (f64_of_f32 b) !tabsj with
+                    | Some sj -> de_f32 sj = b
+                    | None -> false)) !tab32
+            && List.for_all (fun (b, s) -> num_event s = EvF b) !tabsj in
           let model =
             Printf.sprintf "dom=%s hyp=%s | ser %s | de %s | rt=%s | sj %s | sh=%s sh32=%s | via %s | vrt=%s"
               (b01 dom) (b01 hyp) ser_s de_s (b01 rt) sj_s (b01 sh) (b01 sh32) via_s (b01 vrt) in
